@@ -85,7 +85,8 @@ type AObs struct {
 	EngineSame bool    `json:"engine_table_unchanged,omitempty"`
 	OthersSame bool    `json:"other_actors_unaffected,omitempty"`
 	TableStat  string  `json:"table_status,omitempty"`
-	Edge       bool    `json:"edge_of_sizing_rules,omitempty"` // bot: the asked player's round stack was set to an edge value
+	Accessor   bool    `json:"adapter_accessor_probe,omitempty"` // observer: the adapter's GetGameState was called and its result filtered
+	Edge       bool    `json:"edge_of_sizing_rules,omitempty"`   // bot: the asked player's round stack was set to an edge value
 }
 
 type ACase struct {
@@ -208,6 +209,14 @@ type botSlot struct {
 	curGame  string
 	last     int64
 }
+
+// an engine whose table is a stand-in object with the real engine's content
+type standIn struct {
+	pt.TableEngine
+	t *pt.Table
+}
+
+func (s standIn) GetTable() *pt.Table { return s.t }
 
 // hand a table snapshot to an actor; a panic inside the actor is reported, not propagated
 func deliver(ad *recAdapter, t *pt.Table) (panicked string) {
@@ -539,6 +548,26 @@ func runActorViews(c *ACase) {
 			wg.Wait()
 		}
 		h1 := jsonHash(eng)
+		// the adapter's own accessor to the hand: asked before the first update (an actor attached between two deliveries, holding a
+		// snapshot without a hand) and after one, it must hand out nothing or a copy - what the caller does to it (here: the
+		// observer's filter) must not reach the engine's table.  The engine is again a stand-in holding the same content.
+		if eng2, err := t.Clone(); err == nil && gs != nil {
+			idle, _ := t.Clone()
+			idle.State.GameState = nil
+			ad2 := actor.NewTableEngineAdapter(standIn{TableEngine: d.te, t: eng2}, idle)
+			a2 := actor.NewActor()
+			a2.SetAdapter(ad2)
+			a2.SetRunner(actor.NewObserverRunner())
+			g0 := jsonHash(eng2)
+			if g := ad2.GetGameState(); g != nil {
+				g.AsObserver()
+			}
+			ad2.UpdateTableState(eng2)
+			if g := ad2.GetGameState(); g != nil {
+				g.AsObserver()
+			}
+			c.Obs = append(c.Obs, AObs{Kind: "observer", System: true, EngineSame: g0 == jsonHash(eng2), OthersSame: true, TableStat: string(t.State.Status), Accessor: true})
+		}
 		mu.Lock()
 		views := append([]*pt.Table{}, pobs.views...)
 		mu.Unlock()
